@@ -99,6 +99,7 @@ fn main() {
     env::install_panic_hook();
     jbonsai::verif::set_yield_hook(Some(l2a::combined_hook));
     let args = Args::parse();
+    let owner = env::claim_scratch_root();
     let code = match args.pos.first().map(|s| s.as_str()) {
         Some("w1") => cmd_w1(&args),
         Some("w1child") => cmd_w1child(&args),
@@ -115,7 +116,9 @@ fn main() {
             2
         }
     };
-    let _ = std::fs::remove_dir_all(env::scratch_root());
+    if owner {
+        let _ = std::fs::remove_dir_all(env::scratch_root());
+    }
     std::process::exit(code);
 }
 
@@ -242,7 +245,7 @@ fn w1_cfg(args: &Args, prop: Prop) -> BatchCfg {
         workers: args.num("workers", 16) as usize,
         replay_dir: PathBuf::from(args.get("replay-dir", "/verif/replays")),
         determinism_sample: args.num("determinism", if thorough { 2000 } else { 300 }),
-        sys_max_n: 3,
+        sys_max_n: if thorough { 4 } else { 3 },
         sys_variants: args.num("sys-variants", if thorough { 2 } else { 1 }) as usize,
         dump_digests: args.opt.get("dump-digests").map(PathBuf::from),
         runs_per_fork: args.num("runs-per-fork", match prop { Prop::C20 => 64, Prop::C19 => 16, Prop::C02 => 4, Prop::C03 => 1 }),
